@@ -23,7 +23,7 @@ Definition gc_fs (c : git_case) : fsys str :=
   {| fs_files := w_files (gc_ws c); fs_dirs := w_dirs (gc_ws c) |}.
 
 Definition model_repo (c : git_case) : repo_result :=
-  find_git_repo 64 (fun p => fs_stat (gc_fs c) (fp_abs (gc_cwd c) p)) (gc_args c).
+  find_git_repo (gc_cwd c) 64 (fs_stat (gc_fs c)) (gc_args c).
 
 Definition repo_agrees (c : git_case) : bool := repo_eqb (model_repo c) (gc_repo_obs c).
 
